@@ -159,3 +159,39 @@ Proof.
   destruct (OsmS_ok _ _ _ _ _ _ H0 E) as (_ & _ & Hv). destruct (Hv v eq_refl) as (_ & _ & ->). reflexivity.
 Qed.
 Print Assumptions optimal_steps_mixed_value.
+
+(* ---- the planner's cost is the minimum of its recurrence over ALL candidates (the analogue of BinomDP.E_le for Mixed) ---- *)
+Lemma minloop_le : forall cnt i F acc, minloop cnt i F acc <= acc /\ forall j, i <= j < i + Z.of_nat cnt -> minloop cnt i F acc <= F j.
+Proof.
+  induction cnt as [|c IH]; intros i F acc; cbn [minloop]; [split; [lia|intros; lia]|].
+  destruct (IH (i + 1) F (Z.min acc (F i))) as [H1 H2]. split; [lia|]. intros j Hj.
+  destruct (Z.eq_dec j i) as [->|]; [lia|apply H2; lia].
+Qed.
+Lemma minloop_attained : forall cnt i F acc, minloop cnt i F acc = acc \/ exists j, i <= j < i + Z.of_nat cnt /\ minloop cnt i F acc = F j.
+Proof.
+  induction cnt as [|c IH]; intros i F acc; cbn [minloop]; [left; reflexivity|].
+  destruct (IH (i + 1) F (Z.min acc (F i))) as [H|(j & Hj & H)].
+  - destruct (Z.min_spec acc (F i)) as [[_ E]|[_ E]]; rewrite H, E; [left; reflexivity|right; exists i; split; [lia|reflexivity]].
+  - right. exists j. split; [lia|exact H].
+Qed.
+Theorem C_le_adj m k : 2 <= k -> k + 1 < m -> C m k <= 1 + C (m - 1) (k - 1).
+Proof.
+  intros Hk Hm. pose proof (C_unfold m k ltac:(lia) ltac:(lia)) as H. cbn zeta in H. replace (Z.min k (m - 1)) with k in H by lia.
+  destruct (Z.leb_spec m (k + 1)); [lia|]. destruct (Z.eqb_spec k 1); [lia|]. rewrite H. apply minloop_le.
+Qed.
+Theorem C_le_ics m k i : 2 <= k -> k + 1 < m -> 2 <= i <= m - 1 -> C m k <= i + C i k + C (m - i) (k - 1).
+Proof.
+  intros Hk Hm Hi. pose proof (C_unfold m k ltac:(lia) ltac:(lia)) as H. cbn zeta in H. replace (Z.min k (m - 1)) with k in H by lia.
+  destruct (Z.leb_spec m (k + 1)); [lia|]. destruct (Z.eqb_spec k 1); [lia|]. rewrite H.
+  exact (proj2 (minloop_le (Z.to_nat (m - 2)) 2 (pureX m k) _) i ltac:(lia)).
+Qed.
+Theorem C_attained m k : 2 <= k -> k + 1 < m ->
+  C m k = 1 + C (m - 1) (k - 1) \/ exists i, 2 <= i <= m - 1 /\ C m k = i + C i k + C (m - i) (k - 1).
+Proof.
+  intros Hk Hm. pose proof (C_unfold m k ltac:(lia) ltac:(lia)) as H. cbn zeta in H. replace (Z.min k (m - 1)) with k in H by lia.
+  destruct (Z.leb_spec m (k + 1)); [lia|]. destruct (Z.eqb_spec k 1); [lia|]. rewrite H.
+  destruct (minloop_attained (Z.to_nat (m - 2)) 2 (pureX m k) (1 + C (m - 1) (k - 1))) as [E|(j & Hj & E)]; [left; exact E|].
+  right. exists j. split; [lia|exact E].
+Qed.
+Print Assumptions C_le_ics.
+Print Assumptions C_attained.
